@@ -26,12 +26,14 @@ Qed.
 
 Section ExecProofs.
   Variables W O : Type.
-  Variable clause_result : nat -> Z -> state W -> cres W O.
+  Variable clause_result : env -> txn -> nat -> Z -> state W -> cres W O.
   Variable write_credit : Z -> Z -> Z -> W -> W.
 
   (* the only assumption about the EVM: it hands back no more gas than it was given, and a non-negative refund counter *)
   Definition oracle_ok : Prop :=
-    forall i g st, 0 <= g -> 0 <= cr_left _ _ (clause_result i g st) <= g /\ 0 <= cr_refund _ _ (clause_result i g st).
+    forall e t i g st, 0 <= g -> 0 <= cr_left _ _ (clause_result e t i g st) <= g /\ 0 <= cr_refund _ _ (clause_result e t i g st).
+  Definition cr_ok (cr : nat -> Z -> state W -> cres W O) : Prop :=
+    forall i g st, 0 <= g -> 0 <= cr_left _ _ (cr i g st) <= g /\ 0 <= cr_refund _ _ (cr i g st).
 
   Definition log_ok (log : list (Z * Z * Z)) : Prop :=
     Forall (fun x => let '(gin, used, refund) := x in 0 <= refund /\ 2 * refund <= used /\ used <= gin) log.
@@ -57,9 +59,9 @@ Section ExecProofs.
     pose proof (Z.div_mod (g - l) 2 ltac:(lia)). pose proof (Z.mod_pos_bound (g - l) 2 ltac:(lia)). lia.
   Qed.
 
-  Lemma run_clauses_inv (OK : oracle_ok) cp cs : forall i lft st outs log lft' st' outs' rev log',
+  Lemma run_clauses_inv cr T S (OK : cr_ok cr) cp cs : forall i lft st outs log lft' st' outs' rev log',
     0 <= lft -> log_ok log ->
-    run_clauses W O clause_result cp i cs lft st outs log = (lft', st', outs', rev, log') ->
+    run_clauses W O cr T S cp i cs lft st outs log = (lft', st', outs', rev, log') ->
     0 <= lft' <= lft /\ log_ok log' /\
     lft - lft' = (log_used log' - log_used log) - (log_refund log' - log_refund log) /\
     (rev = true -> st' = cp /\ outs' = []) /\
@@ -68,7 +70,7 @@ Section ExecProofs.
     induction cs as [|c rest IH]; intros i lft st outs log lft' st' outs' rev log' H0 HL H; cbn in H.
     - inversion H; subst. repeat split; try lia; auto; try discriminate.
     - destruct (OK i lft st H0) as [Hl Hr].
-      set (r := clause_result i lft st) in *.
+      set (r := cr i lft st) in *.
       pose proof (step_facts lft (cr_left _ _ r) (cr_refund _ _ r) Hl Hr) as [F1 [F2 [F3 F4]]]. cbv zeta in *.
       assert (HL' : log_ok (log ++ [(lft, lft - cr_left _ _ r, Z.min ((lft - cr_left _ _ r) / 2) (cr_refund _ _ r))])).
       { apply Forall_app. split; [exact HL|]. constructor; [|constructor]. cbv beta iota. lia. }
@@ -150,10 +152,10 @@ Section ExecProofs.
     destruct (e_gas_limit e <? t_gas t) eqn:EL; [discriminate|]. apply Z.ltb_ge in EL.
     destruct (buy_gas e t ci (fst st0)) as [err|b]; [discriminate|].
     destruct (t_ctx_err t); [discriminate|].
-    destruct (run_clauses _ _ _ _ _ _ _ _ _ _) as [[[[lft st2] outs] rev] log] eqn:ERC.
+    destruct (run_clauses _ _ _ _ _ _ _ _ _ _ _ _) as [[[[lft st2] outs] rev] log] eqn:ERC.
     intros H; inversion H; subst; clear H.
     cbn [r_gas_used r_paid r_reward r_reverted r_outputs r_payer r_price r_credit r_clause_log].
-    apply (run_clauses_inv OK) in ERC; [|lia|constructor].
+    apply (run_clauses_inv _ _ _ (OK e t)) in ERC; [|lia|constructor].
     destruct ERC as [A [B [C _]]]. change (log_used []) with 0 in C. change (log_refund []) with 0 in C.
     pose proof (log_ok_half log B).
     exists ig. repeat split; try lia; auto.
@@ -178,10 +180,10 @@ Section ExecProofs.
     destruct (buy_gas e t ci (fst st0)) as [err|b] eqn:EB; [discriminate|].
     apply buy_gas_spec in EB. destruct EB as [Hpre [Hled [Hok _]]].
     destruct (t_ctx_err t); [discriminate|].
-    destruct (run_clauses _ _ _ _ _ _ _ _ _ _) as [[[[lft st2] outs] rev] log] eqn:ERC.
+    destruct (run_clauses _ _ _ _ _ _ _ _ _ _ _ _) as [[[[lft st2] outs] rev] log] eqn:ERC.
     intros H Hrev; inversion H; subst; clear H. cbn in Hrev. subst rev. cbn.
     apply resolve_spec in ER. destruct ER as [_ Hig].
-    apply (run_clauses_inv OK) in ERC; [|lia|constructor].
+    apply (run_clauses_inv _ _ _ (OK e t)) in ERC; [|lia|constructor].
     destruct ERC as [_ [_ [_ [D _]]]]. destruct (D eq_refl) as [-> ->]. cbn [fst snd].
     rewrite <- Hpre.
     replace (t_gas t - (t_gas t - lft)) with lft by lia.
@@ -199,7 +201,7 @@ Section ExecProofs.
     destruct (_ <? t_gas t); [intros H; inversion H; reflexivity|].
     destruct (buy_gas _ _ _ _); [intros H; inversion H; reflexivity|].
     destruct (t_ctx_err t); [intros H; inversion H; congruence|].
-    destruct (run_clauses _ _ _ _ _ _ _ _ _ _) as [[[[? ?] ?] ?] ?]. discriminate.
+    destruct (run_clauses _ _ _ _ _ _ _ _ _ _ _ _) as [[[[? ?] ?] ?] ?]. discriminate.
   Qed.
 
   Theorem adopt_rejected_unchanged_lemma e used t ci st0 st :
@@ -245,79 +247,8 @@ Section ExecProofs.
     unfold exec_tx. destruct (resolve t); [discriminate|]. destruct (_ <? t_gas t); [discriminate|].
     destruct (buy_gas e t ci (fst st0)) as [|b] eqn:EB; [discriminate|]. apply buy_gas_spec in EB.
     destruct (t_ctx_err t); [discriminate|].
-    destruct (run_clauses _ _ _ _ _ _ _ _ _ _) as [[[[? ?] ?] ?] ?].
+    destruct (run_clauses _ _ _ _ _ _ _ _ _ _ _ _) as [[[[? ?] ?] ?] ?].
     intros H Hbf; inversion H; subst; cbn. destruct EB as [_ [_ [_ HP]]]. auto.
   Qed.
 
-  (* clauses move funds only through VTHO-neutral, VET-neutral ledger primitives (Ledger theorems discharge this for
-     every list of transfers / energy moves / self-destructs to another account) *)
-  Definition clauses_neutral (T S : Z) (dom : list Z) : Prop :=
-    forall i g st, let st' := cr_state _ _ (clause_result i g st) in
-      sum_eng T S dom (l_acc (fst st')) = sum_eng T S dom (l_acc (fst st)) /\
-      sum_bal dom (l_acc (fst st')) = sum_bal dom (l_acc (fst st)).
-
-  Lemma run_clauses_neutral T S dom (N : clauses_neutral T S dom) cp cs : forall i lft st outs log lft' st' outs' rev log',
-    run_clauses W O clause_result cp i cs lft st outs log = (lft', st', outs', rev, log') ->
-    (st' = cp /\ rev = true) \/
-    (sum_eng T S dom (l_acc (fst st')) = sum_eng T S dom (l_acc (fst st)) /\
-     sum_bal dom (l_acc (fst st')) = sum_bal dom (l_acc (fst st))).
-  Proof.
-    induction cs as [|c rest IH]; intros i lft st outs log lft' st' outs' rev log' H; cbn in H.
-    - inversion H; subst. right. split; reflexivity.
-    - destruct (cr_err _ _ _) eqn:E.
-      + inversion H; subst. left. split; reflexivity.
-      + apply IH in H. destruct H as [H|[H1 H2]]; [left; exact H|]. right.
-        destruct (N i lft st) as [N1 N2]. cbv zeta in *. split; congruence.
-  Qed.
-
-  Theorem vtho_delta_tx_lemma e t ci st0 st rc dom :
-    let T := e_time e in let S := e_stop e in
-    clauses_neutral T S dom -> NoDup dom -> In (r_payer O rc) dom -> In (e_benef e) dom ->
-    exec_tx W O clause_result write_credit e t ci st0 = Done W O st rc ->
-    sum_eng T S dom (l_acc (fst st)) = sum_eng T S dom (l_acc (fst st0)) + r_reward O rc - r_paid O rc /\
-    sum_bal dom (l_acc (fst st)) = sum_bal dom (l_acc (fst st0)).
-  Proof.
-    intros T S N ND. unfold exec_tx. destruct (resolve t); [discriminate|]. destruct (_ <? t_gas t); [discriminate|].
-    destruct (buy_gas e t ci (fst st0)) as [|b] eqn:EB; [discriminate|]. apply buy_gas_spec in EB.
-    destruct EB as [Hpre [Hled [Hok _]]].
-    destruct (t_ctx_err t); [discriminate|].
-    destruct (run_clauses _ _ _ _ _ _ _ _ _ _) as [[[[lft st2] outs] rev] log] eqn:ERC.
-    intros Hp Hb H; inversion H; subst; clear H. cbn in *.
-    fold T S in Hled, Hok |- *.
-    rewrite energy_add_eng, energy_add_bal by assumption.
-    rewrite energy_add_eng, energy_add_bal by assumption.
-    assert (E2 : sum_eng T S dom (l_acc (fst st2)) = sum_eng T S dom (l_acc (b_led b)) /\
-                 sum_bal dom (l_acc (fst st2)) = sum_bal dom (l_acc (b_led b))).
-    { apply (run_clauses_neutral T S dom N) in ERC. destruct ERC as [[-> _]|ERC]; [split; reflexivity|exact ERC]. }
-    destruct E2 as [E2 E3]. rewrite E2, E3, Hled.
-    rewrite energy_sub_eng, energy_sub_bal by assumption. rewrite Hok. split; [|reflexivity].
-    rewrite Hpre. lia.
-  Qed.
-  (* the same over ANY address set: with dom = [a] this is the per-account statement — the payer (and only the payer) is
-     charged exactly gasUsed x price, the beneficiary (and only it) receives the reward, every account whose funds the
-     clauses leave alone keeps its energy *)
-  Theorem energy_delta_any_set_lemma e t ci st0 st rc dom :
-    let T := e_time e in let S := e_stop e in
-    clauses_neutral T S dom -> NoDup dom ->
-    exec_tx W O clause_result write_credit e t ci st0 = Done W O st rc ->
-    sum_eng T S dom (l_acc (fst st)) = sum_eng T S dom (l_acc (fst st0))
-        + (if member (e_benef e) dom then r_reward O rc else 0) - (if member (r_payer O rc) dom then r_paid O rc else 0) /\
-    sum_bal dom (l_acc (fst st)) = sum_bal dom (l_acc (fst st0)).
-  Proof.
-    intros T S N ND. unfold exec_tx. destruct (resolve t); [discriminate|]. destruct (_ <? t_gas t); [discriminate|].
-    destruct (buy_gas e t ci (fst st0)) as [|b] eqn:EB; [discriminate|]. apply buy_gas_spec in EB.
-    destruct EB as [Hpre [Hled [Hok _]]].
-    destruct (t_ctx_err t); [discriminate|].
-    destruct (run_clauses _ _ _ _ _ _ _ _ _ _) as [[[[lft st2] outs] rev] log] eqn:ERC.
-    intros H; inversion H; subst; clear H. cbn in *.
-    fold T S in Hled, Hok |- *.
-    rewrite energy_add_eng_any, energy_add_bal_any by assumption.
-    rewrite energy_add_eng_any, energy_add_bal_any by assumption.
-    assert (E2 : sum_eng T S dom (l_acc (fst st2)) = sum_eng T S dom (l_acc (b_led b)) /\
-                 sum_bal dom (l_acc (fst st2)) = sum_bal dom (l_acc (b_led b))).
-    { apply (run_clauses_neutral T S dom N) in ERC. destruct ERC as [[-> _]|ERC]; [split; reflexivity|exact ERC]. }
-    destruct E2 as [E2 E3]. rewrite E2, E3, Hled.
-    rewrite energy_sub_eng_any, energy_sub_bal_any by assumption. rewrite Hok. cbn [andb]. split; [|reflexivity].
-    rewrite Hpre. destruct (member (b_payer b) dom), (member (e_benef e) dom); lia.
-  Qed.
 End ExecProofs.
